@@ -703,6 +703,8 @@ impl<T> LockFreeStack<T> {
 
         loop {
             let head = self.head.load(Ordering::Acquire);
+            #[cfg(zipora_verif)]
+            crate::verif_hooks::yield_point(100);
             unsafe {
                 (*new_node).next = head;
             }
@@ -712,12 +714,18 @@ impl<T> LockFreeStack<T> {
                 .compare_exchange_weak(head, new_node, Ordering::Release, Ordering::Relaxed)
                 .is_ok()
             {
+                #[cfg(zipora_verif)]
+                crate::verif_hooks::yield_point(102);
                 break;
             }
+            #[cfg(zipora_verif)]
+            crate::verif_hooks::yield_point(101);
         }
     }
 
     fn pop(&self) -> Option<T> {
+        #[cfg(zipora_verif)]
+        crate::verif_hooks::yield_point(110);
         let _single_popper = self.pop_lock.lock().unwrap_or_else(|e| e.into_inner());
         loop {
             let head = self.head.load(Ordering::Acquire);
